@@ -310,6 +310,21 @@ func (c *compiler) computeStates() {
 			last = &state{index: len(c.states), symbol: inp.Nonterminal, sourceState: i, lr0: true}
 			c.states = append(c.states, last)
 			c.addShift(c.states[i], last)
+		} else if c.enteredElsewhere(last, i) {
+			// The accepting state of an input must not be reachable in any other way (parsing
+			// stops in it, and for eoi inputs it gets an extra transition on EOI), so the start
+			// state gets a private copy of it.
+			clone := &state{index: len(c.states), symbol: last.symbol, sourceState: i, core: last.core,
+				shifts: slices.Clone(last.shifts), reduce: last.reduce, lr0: last.lr0, dropped: last.dropped}
+			c.states = append(c.states, clone)
+			shifts := c.states[i].shifts
+			shifts[slices.Index(shifts, last.index)] = clone.index
+			for m, marker := range c.out.Markers {
+				if slices.Contains(marker.States, last.index) {
+					c.out.mark(clone.index, m)
+				}
+			}
+			last = clone
 		}
 
 		finalStates[i] = last.index
@@ -327,6 +342,16 @@ func (c *compiler) computeStates() {
 	}
 	c.out.FinalStates = finalStates
 	c.out.NumStates = len(c.states)
+}
+
+// enteredElsewhere reports whether "target" has an incoming transition from a state other than "from".
+func (c *compiler) enteredElsewhere(target *state, from int) bool {
+	for _, s := range c.states {
+		if s.index != from && slices.Contains(s.shifts, target.index) {
+			return true
+		}
+	}
+	return false
 }
 
 func (c *compiler) checkLR0() {
